@@ -74,6 +74,11 @@ type Case struct {
 	// -tls-address); clients handshake first. Extra points there: tls-no-hello
 	// (connected, no ClientHello yet) and tls-half-hello (first bytes of one).
 	TLSListener bool `json:"tls_listener,omitempty"`
+	// ShortTimeout: SetTimeout(500 ms), and the exchanges stay parked for 800 ms
+	// after shutdown was requested. An exchange that takes longer than the
+	// timeout is not owed its response any more (its connection's deadline has
+	// passed); Close() must still wait for its handler.
+	ShortTimeout bool `json:"short_timeout,omitempty"`
 }
 
 // trackListener records when each accepted connection's Close has completed.
@@ -304,6 +309,9 @@ func runOnce(c Case, T time.Duration) (v kit.Verdict) {
 	}
 	p := martian.NewProxy()
 	p.SetTimeout(60 * time.Second)
+	if c.ShortTimeout {
+		p.SetTimeout(500 * time.Millisecond)
+	}
 	if c.TLSListener {
 		netkit.UpstreamTLS(p)
 	}
@@ -490,6 +498,9 @@ func runOnce(c Case, T time.Duration) (v kit.Verdict) {
 		tryNew("during-2")
 	}
 
+	if c.ShortTimeout {
+		time.Sleep(800 * time.Millisecond)
+	}
 	// ---- release parked exchanges in the drawn order
 	parkedLeft := 0
 	for _, k := range clients {
@@ -546,6 +557,10 @@ func runOnce(c Case, T time.Duration) (v kit.Verdict) {
 		}
 		res, _, err := k.cl.ReadResponse(method, T)
 		k.res, k.resErr = res, err
+		if c.ShortTimeout {
+			parkedLeft--
+			continue // (the exchange outlived the connection's deadline)
+		}
 		pre := "C07/exchange/" + k.point + "/"
 		if strings.HasSuffix(k.id, "-fail") {
 			pre = "C07/exchange-with-failing-round-trip/" + k.point + "/"
@@ -729,6 +744,17 @@ func genCase(t *rapid.T) Case {
 			}
 		}
 	}
+	if !c.TLSListener && rapid.IntRange(0, 11).Draw(t, "short_timeout") == 0 {
+		c.ShortTimeout = true
+		for i := range c.Conns {
+			// only points whose park does not depend on the client connection
+			switch c.Conns[i].Point {
+			case "reqmod", "roundtrip", "resmod":
+			default:
+				c.Conns[i] = Conn{Point: "reqmod"}
+			}
+		}
+	}
 	c.NewDuring = rapid.Bool().Draw(t, "new_during")
 	c.NewAfter = rapid.Bool().Draw(t, "new_after")
 	finish(&c, func(k int) []int {
@@ -781,6 +807,9 @@ func classes(c Case) []string {
 	}
 	if c.TLSListener {
 		set["tls-listener"] = true
+	}
+	if c.ShortTimeout {
+		set["exchange-parked-longer-than-the-proxy-timeout"] = true
 	}
 	for _, cn := range c.Conns {
 		if cn.Fail {
